@@ -9,11 +9,11 @@ git checkout -q -- . && git clean -fdq
 git apply "$D/patch.diff" || { echo "PATCH-DOES-NOT-APPLY"; exit 1; }
 go build ./... || { echo "DOES-NOT-COMPILE"; git checkout -q -- .; exit 1; }
 S=0
-for m in . ./test; do (cd $m && go test -mod=mod -vet=off -count=1 ./... >/tmp/seed_suite.log 2>&1) || S=1; done
-[ $S = 0 ] && echo "suite-with-patch: PASS" || { echo "suite-with-patch: FAIL"; tail -20 /tmp/seed_suite.log; }
+for m in . ./test; do (cd $m && go test -mod=mod -vet=off -count=1 ./... >/tmp/seed_suite_$$.log 2>&1) || S=1; done
+[ $S = 0 ] && echo "suite-with-patch: PASS" || { echo "suite-with-patch: FAIL"; tail -20 /tmp/seed_suite_$$.log; }
 cp "$D/demo_test.go" "$PKG/zz_demo_test.go"
-(cd "$PKG" && go test -mod=mod -vet=off -count=1 -run . . >/tmp/seed_demo1.log 2>&1) && echo "demo-with-patch: PASS (bad)" || echo "demo-with-patch: FAIL (good)"
+(cd "$PKG" && go test -mod=mod -vet=off -count=1 -run . . >/tmp/seed_demo1_$$.log 2>&1) && echo "demo-with-patch: PASS (bad)" || echo "demo-with-patch: FAIL (good)"
 git checkout -q -- .
-(cd "$PKG" && go test -mod=mod -vet=off -count=1 -run . . >/tmp/seed_demo2.log 2>&1) && echo "demo-without-patch: PASS (good)" || { echo "demo-without-patch: FAIL (bad)"; tail -5 /tmp/seed_demo2.log; }
+(cd "$PKG" && go test -mod=mod -vet=off -count=1 -run . . >/tmp/seed_demo2_$$.log 2>&1) && echo "demo-without-patch: PASS (good)" || { echo "demo-without-patch: FAIL (bad)"; tail -5 /tmp/seed_demo2_$$.log; }
 rm -f "$PKG/zz_demo_test.go"
 git checkout -q -- . && git clean -fdq
